@@ -261,7 +261,7 @@ def gen_aux(rng, t=None, big=False):
     return dict(tag=tag, t='B', sub=s, l=vals)
 
 
-CIGAR_TYPES = list(range(10))
+CIGAR_TYPES = list(range(10)) * 3 + list(range(10, 16))   # undefined types 10..15 are carried through as well
 
 
 def gen_cigar(rng, n):
@@ -504,27 +504,18 @@ def gen_cases(rng, tier):
         else:
             data = data + [rng.randrange(256) for _ in range(rng.choice([1, 2]))]   # 1-2 trailing bytes are ignored by parseAux
             what = 'trailing'
-        if not safe_for_decoder(data):
-            continue
         cases.append(dict(op='dec', nrefs=nrefs, omit=rng.choice([0, 0, 1, 2]), data=data, _fam='dec-' + what))
+    # inputs that used to panic, loop or be returned with missing data (repaired in bam/reader.go): now errors
+    base = gen_record(rng, 0, L=3, naux=0, ncig=1, small_pos=True)
+    body = spec_record(base)[4:]
+    for k, (tail, what) in enumerate([([88, 89, 105, 1, 2], 'cut-fixed'), ([88, 89, 66, 90, 8, 0, 0, 0], 'array-of-Z'),
+                                      ([88, 89, 66, 115, 255, 255, 255, 255], 'array-overlong'), ([88, 89, 66, 99, 1], 'array-header-cut'),
+                                      ([88, 0, 90, 97, 0], 'nul-in-tag'), ([0, 0, 72, 0, 88, 89, 67, 7], 'nul-tag-empty-H'),
+                                      ([88, 89, 90, 97], 'no-nul')]):
+        cases.append(dict(op='dec', nrefs=0, omit=0, data=body + tail, _fam='dec-' + what))
+    for cut in (31, 33, len(body) - 1, len(body) - 2):
+        cases.append(dict(op='dec', nrefs=0, omit=rng.choice([0, 1, 2]), data=body[:cut], _fam='dec-truncated'))
     return cases
-
-
-def safe_for_decoder(data):
-    """parseAux does not terminate on a B array whose subtype is Z, H or B and whose count is 8
-    (j = 0: no progress, unbounded append).  Such inputs are not sent to the implementation."""
-    if len(data) < 32:
-        return True
-    nlen, ncig = data[8], data[12] | data[13] << 8
-    lseq = int.from_bytes(bytes(data[16:20]), 'little', signed=True)
-    if lseq < 0:
-        return True
-    p = 32 + nlen + 4 * ncig + (lseq + 1) // 2 + lseq
-    aux = data[p:]
-    for i in range(len(aux) - 3):
-        if aux[i + 2] == 66 and aux[i + 3] in (90, 72, 66):
-            return False
-    return True
 
 
 # ---------------------------------------------------------------------------
@@ -949,7 +940,7 @@ def run(res, rng, tier):
     res.extra['coq_evaluated_cases'] = len(terms)
     res.extra['coq_s'] = round(time.time() - t0, 1)
     res.extra['coq_chars'] = sum(len(t[2]) for t in terms)
-    res.rule = ('round-trip cases: typed records (names 1..254 bytes, any flags/MAPQ, 0..12 and 5000 (thorough: 65535) CIGAR ops of types 0..9 with lengths up to 2^28-1, '
+    res.rule = ('round-trip cases: typed records (names 1..254 bytes, any flags/MAPQ, 0..12 and 5000 (thorough: 65535) CIGAR ops of types 0..15 with lengths up to 2^28-1, '
                 'sequences of zero/odd/even length over the 16 codes and through n16Table, qualities absent/present, every aux type incl. all B subtypes and empty arrays/strings, '
                 'block sizes 4094..4098 and >64 KiB, 700 records across BGZF blocks, 70 KiB header), written at several wc/levels/flush placements and read back with rd 1..4 and the three Omit modes; '
                 'single-record byte strings incl. malformed ones; nybble packing over all byte values. A case is distinct by its record contents; all are non-trivial.')
@@ -995,15 +986,14 @@ TRUSTED = [
 ASSUME = [
     'float32 aux values are carried as their 32 bit patterns',
     'Record.Bin (bytes 10..11 of a record) is computed as the code does and excluded from the comparison with the specification encoder (C16 judges it)',
-    'CIGAR operation types 0..10 (Record.End indexes sam.consume; types 11..15 panic in Write: not representable operations)',
-    'the spare capacity of the copy bam.buffer.bytes makes of the shared buffer is a parameter of the model (it only matters for truncated aux data)',
+    'CIGAR operation types 11..15 are carried through unchanged (Consumes clamps them to the lastCigar entry)',
 ]
 
 CLAIM = dict(
     text='Machine-checked proof (Coq 8.16.1) over a model of bam.Writer.Write / bam.Reader.Read / parseAux / buildAux / the header frame that follows the code and interprets tables and field skeletons '
          'regenerated from the Go source: for every valid record decode(encode r) = canon r (absent qualities become 0xff), the stream of header and records reads back in order and ends with EOF, '
          'encode equals an encoder written from SAMv1 4.2 over typed values except for the bin field, the Omit modes return the record minus exactly the omitted parts, '
-         'and the shared/private buffer decision does not influence the result. The model is run against the implementation on every check (bytes under BGZF, fields read back, all Omit modes, several wc/rd), '
+         'the shared/private buffer decision does not influence the result on any input, and decoding one block is total (record or error). The model is run against the implementation on every check (bytes under BGZF, fields read back, all Omit modes, several wc/rd), '
          'and an independent Python encoder/decoder from the specification judges the implementation.',
     note='Trusted: Coq kernel; hand model tied by regenerated tables/skeletons and per-run correspondence; BGZF layer as byte pipe (C01/C02); header text opaque (C07); floats as bit patterns; bin field excluded (C16).',
     technique='Coq proof over hand model + source-regenerated tables/skeletons + vm_compute correspondence + spec oracle',
